@@ -12,7 +12,9 @@ NOSYNC = ["crypto/rand", "encoding/gob", "encoding/json", "expvar", "go/token", 
           "regexp", "time"]
 NOSYNC_PATH = "github.com/gopherjs/gopherjs/nosync"
 PKGS = {"pkga": {"name": None, "path": "fake/pkga"}, "b": {"name": "b", "path": "fake/pkgb"},
-        "pkge": {"name": None, "path": "fake/deep/pkge"}}
+        "pkge": {"name": None, "path": "fake/deep/pkge"},
+        # only used by the shadowing scenarios (never in IMPORT_CHOICES)
+        "utf8": {"name": None, "path": "fake/unicode/utf8"}, "u8": {"name": "u8", "path": "fake/unicode/utf8x"}}
 
 
 def base(path):
@@ -33,7 +35,7 @@ def sig_text(f, name=None):
     if f.get("recv"):
         r = f["recv"]
         t = r["t"] + ("[%s]" % r["tpn"] if r["tp"] else "")
-        recv = "(r %s%s) " % ("*" if r["ptr"] else "", t)
+        recv = "(%s %s%s) " % (r.get("rname", "r"), "*" if r["ptr"] else "", t)
     res = (" " + f["res"]) if f["res"] else ""
     return "func %s%s%s%s%s" % (recv, name, f["tp"], f["params"], res)
 
@@ -53,6 +55,7 @@ def render_body(f):
             lines.append("_ = %s.X" % u)
     for r in f.get("refs", []):
         lines.append("_ = %s" % r)
+    lines += f.get("rawbody", [])
     lines.append('panic("m:%s")' % f["marker"])
     return "{\n\t" + "\n\t".join(lines) + "\n}"
 
@@ -498,6 +501,42 @@ class Gen:
 
 
 IMPORT_CHOICES = ["pkga", "b", "pkge", "blank", "dot", "unsafe", "embed", "sync"]
+SHADOW_SHAPES = ["local", "param", "receiver", "result", "field", "label-key", "closure"]
+
+
+def shadow_decls(g, n, side):
+    """stable declarations in which an identifier spelled like the import name `n` is a LOCAL object used as a selector
+    base (so it is not a use of the import)"""
+    rng = g.rng
+    shape = rng.choice(SHADOW_SHAPES)
+    g.features.add("shadow-" + shape)
+    u = g.uid()
+    f = {"k": "func", "name": "sh%d" % u, "recv": None, "tp": "", "params": "()", "res": "", "siguse": [], "bodyuse": [],
+         "marker": "%s%d" % (side, u), "body": True, "doc": [], "stable": True}
+    st = "struct{ X int }"
+    out = [f]
+    if shape == "local":
+        f["rawbody"] = ["%s := %s{}" % (n, st), "_ = %s.X" % n]
+    elif shape == "param":
+        f["params"] = "(%s %s)" % (n, st)
+        f["rawbody"] = ["_ = %s.X" % n]
+    elif shape == "result":
+        f["res"] = "(%s %s)" % (n, st)
+        f["rawbody"] = ["_ = %s.X" % n]
+    elif shape == "receiver":
+        t = {"k": "gen", "tok": "type", "grouped": False, "doc": [],
+             "specs": [{"name": "ShT%d" % u, "tp": 0, "under": st, "stable": True}]}
+        f["recv"] = {"t": "ShT%d" % u, "ptr": True, "tp": 0, "tpn": "T", "rname": n}
+        f["rawbody"] = ["_ = %s.X" % n]
+        out = [t, f]
+    elif shape == "field":
+        f["rawbody"] = ["var h struct{ %s %s }" % (n, st), "_ = h.%s.X" % n]
+    elif shape == "label-key":
+        f["rawbody"] = ["type lt struct{ %s int }" % n, "_ = lt{%s: 1}" % n, "%s:" % n, "for {", "break %s" % n, "}"]
+    else:
+        f["rawbody"] = ["fn := func(%s %s) int { return %s.X }" % (n, st, n), "_ = fn"]
+    return out
+
 
 
 def gen_case(rng, mode):
@@ -560,6 +599,24 @@ def gen_case(rng, mode):
         if rng.random() < 0.2:
             f["filedoc"] = ["// Package p is generated."]
         orig_files.append(f)
+    # shadowing scenario: an import whose genuine users are (usually) all overridden / purged, while stable declarations
+    # of the same file use a LOCAL identifier of the same spelling as a selector base
+    for f in orig_files:
+        if rng.random() < 0.3:
+            n = rng.choice(["utf8", "u8"])
+            f["chosen"].append(n)
+            forced = rng.random() < 0.7
+            for _ in range(rng.choice([1, 2])):
+                d = g.func("o", f["avail"])
+                d["bodyuse"] = d["bodyuse"] + [n]
+                if forced:
+                    d["force"] = True
+                    d["force_r"] = rng.choice([0.5, 0.8])     # replace / purge
+                f["decls"].insert(rng.randrange(len(f["decls"]) + 1), d)
+            for _ in range(rng.choice([1, 2])):
+                for sd in shadow_decls(g, n, "o"):
+                    f["decls"].insert(rng.randrange(len(f["decls"]) + 1) if sd["k"] == "func" else 0, sd)
+            g.features.add("shadow-scenario" + ("-all-genuine-uses-removed" if forced else ""))
     # a small file whose only declaration is always overridden: the "file left with only imports" branch
     if rng.random() < 0.2:
         d = g.func("o", [])
@@ -635,6 +692,8 @@ def gen_case(rng, mode):
         for d in f["decls"]:
             if d["k"] == "gen" and d["tok"] == "type":
                 for s in d["specs"]:
+                    if s.get("stable"):
+                        continue
                     r = rng.random()
                     if r < 0.2:
                         ov_types.append({"name": s["name"], "tp": s["tp"] if consistent or rng.random() < 0.7 else 1 - s["tp"],
@@ -656,7 +715,7 @@ def gen_case(rng, mode):
                         ov_funcs.append(o)
                         g.features.add("overlay-" + ("init" if d["name"] == "init" else "blank-func"))
                     continue
-                r = 0.5 if d.get("force") else rng.random()
+                r = d.get("force_r", 0.5) if d.get("force") else rng.random()
                 recv = dict(d["recv"]) if d.get("recv") else None
                 if recv and recv["t"] in purged_types:
                     # overlay may only mention methods of a purged type with purge itself (consistent pairs)
@@ -796,6 +855,15 @@ def gen_case(rng, mode):
         specs[rng.randrange(4)]["trail"] = "//gopherjs:purge"
         ov_decls[rng.randrange(nov)].append({"k": "gen", "tok": "const", "grouped": True, "specs": specs, "doc": []})
         g.features.add("overlay-iota-group-spec-purged")
+    if rng.random() < 0.15:
+        n = rng.choice(["utf8", "u8"])
+        k = rng.randrange(nov)
+        pf = g.func("v", [])
+        pf["bodyuse"] = [n]
+        pf["doc"] = ["//gopherjs:purge"]
+        ov_decls[k].append(pf)
+        ov_decls[k] += [sd for sd in shadow_decls(g, n, "v")]
+        g.features.add("shadow-scenario-overlay")
     ov_files = []
     for decls in ov_decls:
         rng.shuffle(decls)
@@ -914,7 +982,12 @@ def run(tier, seed):
                    "comment flags, node identities",
                    "go/parser, go/types (with a fabricated importer), go/printer",
                    "GV.Spec.Augment and the Python expectation = two independent readings of doc/pargma.md + build.go:149-169"]
-    chk.assumptions = ["file.Imports is the list of import specs of the declarations (checked per case by the harness)",
+    chk.assumptions = ["the hook-sequence ties (gen-*, natives-*) parse the sources in the harness with plain parser.ParseComments, so they "
+                       "cannot see how gopherjs itself parses (parser mode, file selection); only the two parseAndAugment-sequence "
+                       "ties run gopherjs's own parsing, and their results are judged by the source-level oracle and go/types",
+                       "the model input `sels` = selector bases that do not resolve to a file-local object, computed by the harness "
+                       "with go/types (not ast.Object); agreement with the parser's resolution is self-checked on every case",
+                       "file.Imports is the list of import specs of the declarations (checked per case by the harness)",
                        "no gopherjs:purge on import declarations (documented as unsupported)",
                        "no comment group attached inside an initialiser expression (checked per case)",
                        "package name of an import = last path element (limitation stated in build.go:463-469)",
@@ -934,8 +1007,8 @@ def run(tier, seed):
            {"ip": "p", "ov": [WITNESS_FIRST_OV], "orig": [WITNESS_FIRST_ORIG]}]
     answers = run_pairs(reqs + wit)
     for r, a in zip(reqs + wit, answers):
-        if a.get("error"):
-            raise RuntimeError("harness error %s on %s" % (a["error"], json.dumps(r)[:2000]))
+        if a.get("error") or a.get("odd"):
+            raise RuntimeError("harness error %s on %s" % (a.get("error") or a.get("odd"), json.dumps(r)[:2000]))
 
     def tie(tag, reqs, answers, metas):
         ins = [a["in"] for a in answers]
@@ -1071,7 +1144,7 @@ def run(tier, seed):
 
     # the same for GENERATED pairs: overlays are written into the natives tree of a scratch copy of the repo, a harness
     # binary is built against that copy (natives are embedded at build time), and the real parseAndAugment runs on them
-    nseq = 600 if tier == "thorough" else 150
+    nseq = 1500 if tier == "thorough" else 250
     seq_results = sequence_tie_generated(reqs[:nseq])
     for i, r in enumerate(seq_results):
         if r.get("error"):
@@ -1084,6 +1157,19 @@ def run(tier, seed):
                                  "%d init functions" % ta.count("func init()"), "%d init functions" % tb.count("func init()"),
                                  signature="C12 original init function removed")
             chk.add_tie_break("parseAndAugment-sequence-generated", json.dumps(reqs[i]), "\n".join(r["a"])[:3000], "\n".join(r["b"])[:3000])
+        # the REAL result judged by the source-level oracle (this is the only tie in which gopherjs does the parsing)
+        c = cases[i]
+        exp, info = expected("c12gen", c["ov"], c["orig"])
+        strip = lambda fs: [[l.split(" = ")[0] if l.startswith("const ") else l for l in f] for f in fs]
+        if strip(r["summary"]) != strip(exp):
+            chk.add_mismatch("parseAndAugment-sequence-generated", json.dumps(reqs[i]), json.dumps(r["summary"]), json.dumps(exp),
+                             signature="C12 declaration-set deviation (real parseAndAugment)")
+        if c["mode"] == "consistent" and r["tc_after"] != "ok":
+            sig = None
+            if "init expr" in r["tc_after"] and info["removed_in_const_group"]:
+                sig = "C12 const-group spec-removed later-implicit-specs-lose-initialiser"
+            chk.add_mismatch("parseAndAugment-sequence-generated", json.dumps(reqs[i]), r["tc_after"], "ok",
+                             signature=sig or "C12 merged-package-type-error (real parseAndAugment)")
     chk.extra["parseAndAugment_sequence_generated_pairs"] = len(seq_results)
 
     return chk.finish()
